@@ -40,7 +40,12 @@ AllTrees == <<
   Tree(A, A, File(5, FALSE), A, A, File(1, FALSE), Sym("f")),       \* 10 d/.gitignore, d/y, f symlink
   Tree(File(2, FALSE), A, A, File(1, FALSE), A, File(2, FALSE), A), \* 11 .gitignore "d/", d/x and d/y tracked
   Tree(File(2, FALSE), A, A, A, File(1, TRUE), A, A),               \* 12 .gitignore "d/", d/x/z tracked (two levels inside)
-  Tree(A, A, A, A, File(2, FALSE), File(1, FALSE), A) >>            \* 13 d/x/z, d/y
+  Tree(A, A, A, A, File(2, FALSE), File(1, FALSE), A),              \* 13 d/x/z, d/y
+  Tree(A, A, A, File(1, FALSE), A, A, ConfL(<<1, 0, 2>>, 1)),       \* 14 = 8 with label set 1
+  Tree(A, A, A, File(1, FALSE), A, A, ConfL(<<1, 0, 2>>, 2)),       \* 15 = 8 with label set 2
+  Tree(A, A, A, ConfL(<<1, 2, -1>>, 1), A, A, File(1, FALSE)),      \* 16 file-vs-symlink conflict at d/x, labels 1
+  Tree(A, A, A, ConfL(<<1, 2, -1>>, 2), A, A, File(1, FALSE)),      \* 17 the same tree ids, labels 2
+  Tree(A, A, A, ConfL(<<-1, 0, 2>>, 0), A, A, ConfL(<<2, 1, 0>>, 0)) >> \* 18 symlink-vs-file and file conflict, unlabelled
 AllSparse == << {<<>>}, {<<"d">>}, {<<"f">>}, {<<"d", "x">>, <<"f">>}, {<<"gi">>, <<"d", "y">>}, {} >>
 
 AllEditPaths == Paths
